@@ -59,6 +59,8 @@ type c13Case struct {
 	ServerMask int    `json:"server_set_mask"`
 	Behaviour  string `json:"server_behaviour"`
 	Enforced   int    `json:"enforced_minor"` // -1: not enforced
+	// PriorMask: (library executor only) another client with this set connects to the same server first
+	PriorMask int `json:"prior_client_set_mask,omitempty"`
 }
 
 type negServer struct {
@@ -148,6 +150,21 @@ func c13Run(c c13Case) (sig string, err error) {
 		}))
 	}
 	var conns []*memnet.Conn
+	if c.PriorMask != 0 {
+		// an earlier client with another configuration negotiates with the same server; whatever it gets must not
+		// influence what the client under test adopts
+		if pc, perr := kmipclient.Dial("verif", kmipclient.WithKmipVersions(subset(c.PriorMask)...), kmipclient.WithDialerUnsafe(func(ctx context.Context) (net.Conn, error) {
+			a, b := memnet.Pipe()
+			conns = append(conns, a, b)
+			go srv.serve(b)
+			return a, nil
+		})); perr == nil {
+			_ = pc.Close()
+		}
+		srv.mu.Lock()
+		srv.discovers, srv.versions = 0, nil
+		srv.mu.Unlock()
+	}
 	opts := []kmipclient.Option{kmipclient.WithKmipVersions(append([]kmip.ProtocolVersion{}, clientSet...)...),
 		kmipclient.WithDialerUnsafe(func(ctx context.Context) (net.Conn, error) {
 			a, b := memnet.Pipe()
@@ -262,7 +279,7 @@ func c13Run(c c13Case) (sig string, err error) {
 
 func TestC13Negotiation(t *testing.T) {
 	const name = "TestC13Negotiation"
-	rec := evid.New("C13", name, "exhaustive: 31 non-empty client sets x 32 server sets x 6 server behaviours (conformant descending intersection, discovery unsupported, lists versions not offered, unordered list, empty list, the library's own BatchExecutor restricted to the set) without enforcement, "+
+	rec := evid.New("C13", name, "exhaustive: 31 non-empty client sets x 32 server sets x 6 server behaviours (conformant descending intersection, discovery unsupported, lists versions not offered, unordered list, empty list, the library's own BatchExecutor restricted to the set, also after an earlier client with another set has negotiated with the same executor) without enforcement, "+
 		"plus 31 x 32 x 5 enforced versions against the conformant server; each followed by two requests and a clone; oracle: pure function of the configuration (highest common version / fallback to 1.0 / failure); "+
 		"non-trivial = the intersection has >= 2 elements, or the server lists a version outside the client's set, or the list is unordered; distinct by case").Attach(t)
 	rec.Exhaustive(true)
@@ -299,6 +316,12 @@ func TestC13Negotiation(t *testing.T) {
 		for sm := 0; sm < 32; sm++ {
 			for _, b := range behaviours {
 				if !run(c13Case{ClientMask: cm, ServerMask: sm, Behaviour: b, Enforced: -1}) {
+					return
+				}
+			}
+			// the library's executor after an earlier, differently configured client ({1.1,1.2} resp. {1.1,1.3})
+			for _, prior := range []int{0b00110, 0b01010} {
+				if !run(c13Case{ClientMask: cm, ServerMask: sm, Behaviour: bLibraryExec, Enforced: -1, PriorMask: prior}) {
 					return
 				}
 			}
